@@ -6,7 +6,8 @@ import common
 KINDS = ["cat", "cat", "mr", "mr", "cat_date", "datetime", "text", "binned", "ca"]
 
 
-def gen_case(rng, ndims=None, kinds=None, max_n=4, n_resp=None, min_base_choices=(0, 1, 2, 3, 5, 10)):
+def gen_case(rng, ndims=None, kinds=None, max_n=4, n_resp=None, min_base_choices=(0, 1, 2, 3, 5, 10),
+             missing_items=True, derived_items=False):
     if kinds is None:
         nd = ndims if ndims is not None else rng.choice([1, 2, 2, 2, 3, 3])
         kinds = [rng.choice(KINDS) for _ in range(nd)]
@@ -15,7 +16,7 @@ def gen_case(rng, ndims=None, kinds=None, max_n=4, n_resp=None, min_base_choices
             kinds = [k if k != "ca" or i == first else "cat" for i, k in enumerate(kinds)]
         if "ca" in kinds and nd == 3:
             kinds = kinds[:2]
-    vars_ = [gen.gen_var(rng, k, "v%d" % i, n=rng.randint(1, max_n)) for i, k in enumerate(kinds)]
+    vars_ = [gen.gen_var(rng, k, "v%d" % i, n=rng.randint(1, max_n), missing_items=missing_items, derived_items=derived_items) for i, k in enumerate(kinds)]
     weighted = rng.random() < 0.65
     survey = gen.gen_survey(rng, vars_, n_resp=n_resp, weighted=weighted)
     return {"vars": [v.to_json() for v in vars_], "survey": gen.survey_to_json(survey),
@@ -40,15 +41,16 @@ def nparts(vars_):
     if n_apparent(vars_) < 3:
         return 1
     v = vars_[0]
-    return len(v.items) if v.is_array else len(v.valid_cat_pos)
+    return len(v.valid_item_pos) if v.is_array else len(v.valid_cat_pos)
 
 
 def lean_inputs(case):
     vars_, survey = load(case)
     lv = [v.lean() for v in vars_]
     ls = gen.survey_lean(vars_, survey)
-    wdata = [gen.frac_str(x) for x in gen.tabulate(vars_, survey, case["weighted"])]
-    udata = [gen.frac_str(x) for x in gen.tabulate(vars_, survey, False)]
+    # the Lean model sees the cube over the VALID array items only (see gen.Var.lean)
+    wdata = [gen.frac_str(x) for x in gen.tabulate_valid_items(vars_, survey, case["weighted"])]
+    udata = [gen.frac_str(x) for x in gen.tabulate_valid_items(vars_, survey, False)]
     return vars_, survey, lv, ls, wdata, udata
 
 
@@ -122,7 +124,7 @@ def element_keys(v):
     """keys under which the library addresses the VALID elements of the (first) apparent
     dimension of a variable in transforms (shimmed form for arrays / datetime)."""
     if v.is_array:
-        return [it["alias"] for it in v.items]
+        return [it["alias"] for it in v.items if not it.get("missing")]
     if v.kind == "datetime":
         return ["20%02d-01-01T00:00:00" % (i + 1) for i, c in enumerate(v.cats) if not c["missing"]]
     return [c["id"] for c in v.cats if not c["missing"]]
